@@ -437,6 +437,8 @@ func (in *Interp) resetPath() {
 		in.implied = map[*Term]implEnt{}
 	}
 	in.pos = 0
+	in.decCtr = 0
+	in.decimals = nil
 	pathZero = map[*Term]uint64{}
 	in.model = nil
 	in.modelMemo = nil
